@@ -84,8 +84,13 @@ class Scheduler:
             self.cv.notify_all()
 
 
+SCHEDULE_NO = [0]
+
+
 def run_schedule(queries, order):
     sched = Scheduler(len(queries), order)
+    SCHEDULE_NO[0] += 1
+    copy_ctx = SCHEDULE_NO[0] % 2 == 0       # as asyncio.to_thread / context-propagating executors start their workers
     real = lex.Lexer.token
 
     def token(self):
@@ -101,7 +106,8 @@ def run_schedule(queries, order):
             sched.finish()
     lex.Lexer.token = token
     try:
-        ths = [threading.Thread(target=work, args=(i,)) for i in range(len(queries))]
+        import contextvars
+        ths = [threading.Thread(target=(contextvars.copy_context().run if copy_ctx else (lambda f, i: f(i))), args=(work, i)) for i in range(len(queries))]
         for t in ths:
             t.start()
         for t in ths:
@@ -109,6 +115,77 @@ def run_schedule(queries, order):
     finally:
         lex.Lexer.token = real
     return results
+
+
+def line_level(a, b, seq, limit):
+    """finer than lexer steps: thread A is stopped before each line it executes inside luqum's own source, thread B then performs one whole
+    parse, then A goes on (one schedule per line event, at most `limit` evenly spread ones); both outcomes must be the sequential ones"""
+    import os
+    root = os.path.dirname(os.path.abspath(P.__file__)) + os.sep
+    # count A's line events
+    count = [0]
+
+    def counter(frame, event, arg):
+        if frame.f_code.co_filename.startswith(root):
+            if event == "line":
+                count[0] += 1
+            return counter
+        return None
+    def run_count():
+        sys.settrace(counter)
+        try:
+            outcome(TH.parse, a)
+        finally:
+            sys.settrace(None)
+    t = threading.Thread(target=run_count)
+    t.start()
+    t.join()
+    total = count[0]
+    stops = sorted(set(range(1, total + 1)) if total <= limit else {1 + (k * (total - 1)) // (limit - 1) for k in range(limit)})
+    fails = []
+    n = 0
+    for stop in stops:
+        n += 2
+        seen = [0]
+        res = {}
+        go_b, b_done = threading.Event(), threading.Event()
+
+        def tracer(frame, event, arg, seen=seen, go_b=go_b, b_done=b_done):
+            if frame.f_code.co_filename.startswith(root):
+                if event == "line":
+                    seen[0] += 1
+                    if seen[0] == stop:
+                        go_b.set()
+                        b_done.wait(20)
+                return tracer
+            return None
+
+        def run_a(res=res, tracer=tracer, go_b=go_b):
+            sys.settrace(tracer)
+            try:
+                res["a"] = outcome(TH.parse, a)
+            finally:
+                sys.settrace(None)
+                go_b.set()
+
+        def run_b(res=res, go_b=go_b, b_done=b_done):
+            go_b.wait(20)
+            try:
+                res["b"] = outcome(TH.parse, b)
+            finally:
+                b_done.set()
+        ta, tb = threading.Thread(target=run_a), threading.Thread(target=run_b)
+        ta.start()
+        tb.start()
+        ta.join(30)
+        tb.join(30)
+        for which, q in (("a", a), ("b", b)):
+            if res.get(which) != seq[q]:
+                fails.append({"input": [a[:60], b[:60]], "schedule": "A stopped before its line event %d of %d, B parses, A resumes" % (stop, total), "signature": "line-level",
+                              "observation": "line-level preemption (A stopped before line event %d of %d while B parses): the call on %r gave %r, sequentially %r" %
+                              (stop, total, q[:60], (res.get(which) or ("nothing",))[:2], seq[q][:2])})
+                return n, fails
+    return n, fails
 
 
 def interleavings(counts, cap, rng):
@@ -193,6 +270,18 @@ def main():
                 if r != seq[q]:
                     fails.append({"input": list(tr), "schedule": "".join(map(str, order)), "signature": "interleaving3",
                                   "observation": "three threads, schedule %s: the call on %r gave %r, sequentially %r" % ("".join(map(str, order)), q, r[:2], seq[q][:2])})
+    # line-level preemption inside luqum's own code (finer than lexer steps)
+    many_numbers = " ".join("w%d^%d.%d x%d~%d" % (i, i + 2, i % 7, i, i % 3 + 1) for i in range(140))
+    seq[many_numbers] = outcome(P.parse, many_numbers)
+    ll_pairs = [("x^7 AND  y~0.25", many_numbers), ("a  OR\tb", "c:(d   e)^2.50 "), ("f:[1 TO  2] g", "(h"), ("i AND", " j  k~3 ")][: p.get("line_pairs", 2)]
+    for a, b in ll_pairs:
+        for q in (a, b):
+            if q not in seq:
+                seq[q] = outcome(P.parse, q)
+        k, ff = line_level(a, b, seq, p.get("line_stops", 120))
+        n += k
+        schedules += k // 2
+        fails.extend(ff)
     # free-running stress
     old = sys.getswitchinterval()
     sys.setswitchinterval(1e-6)
@@ -220,8 +309,8 @@ def main():
     emit({"ok": not rest, "evaluations": n, "distinct_nontrivial": schedules,
           "rule": "%d inputs (valid and invalid); every ordered pair x every interleaving of their lexer steps (<= %d per pair, beyond that the "
                   "two serial orders, strict alternation and seeded samples); %d random triples x <= %d schedules; 8 free-running threads x %d "
-                  "calls with a 1 us switch interval; outcome compared with sequential luqum.parser.parse (repr, fingerprint, layout, text / "
-                  "exception type and message); distinct = schedules executed" % (len(pool), p.get("cap", 200), len(triples), p.get("cap3", 30), p.get("stress_calls", 300)),
+                  "calls with a 1 us switch interval; %d pairs with line-level preemption inside luqum's code (<= %d stops each); workers of every second schedule start in a copy of the caller's context; outcome compared with sequential luqum.parser.parse (repr, fingerprint, layout, text / "
+                  "exception type and message); distinct = schedules executed" % (len(pool), p.get("cap", 200), len(triples), p.get("cap3", 30), p.get("stress_calls", 300), p.get("line_pairs", 2), p.get("line_stops", 120)),
           "bound": "2-3 threads under the deterministic scheduler at lexer-step granularity; pool of %d inputs" % len(pool),
           "samples": [{"pair": ["a b", "(b"], "schedule": "0101100", "result": [seq["a b"][1], seq["(b"][1:3]]}],
           "failures": rest[:20], "known": hit, "known_covered": len(fails) - len(rest)})
